@@ -201,7 +201,10 @@ theorem gen_appender_shapes :
     skel_keep_writing = [.call "capacity", .call "try_pop_n", .call "destination", .call "append_to_iovec",
       .call "check_and_get_file_descriptor", .call "close", .call "write_use_plain_writev", .call "usleep"] ∧
     skel_write_use_plain_writev = [.call "writev", .call "deallocate", .call "clear", .call "clear"] ∧
-    skel_close = [.call "joinable", .call "push", .call "join"] ∧ skel_write = [.call "push"] := by decide
+    skel_close = [.call "joinable", .call "push", .call "join"] ∧ skel_write = [.call "push"] ∧
+    -- `discard()` runs on the logging threads, concurrently: its scatter-list / page scratch vectors must be
+    -- per thread (the model treats each discard as the sequential `discardPages` of part A)
+    discardScratchPerThread = true := by decide
 
 /-- Queue pairing rule (bounded_queue.h): a producer that sleeps on the slot futex
 (`USE_FUTEX_WAIT`) is woken only by a consumer popping with `USE_FUTEX_WAKE`.  `keep_writing` pops
